@@ -15,7 +15,7 @@ from vfw.model import links as L
 PROPERTY = "C17"
 SIZES = {"quick": 3000, "thorough": 60000}
 RULE = (
-    "(a) exhaustive: all 5^4 = 625 tables over 2 faces x 1 axis; (b) exhaustive: every single edit and every "
+    "(a) exhaustive: all 5^4 = 625 tables over 2 faces x 1 axis, each with the faces listed in both orders; (b) exhaustive: every single edit and every "
     "double edit (slot replaced by any other value incl. None, a missing face index 7, a missing axis 'Q', a flipped "
     "reverse flag) of consistent base tables over 2 faces x 2 axes and 3 faces x {1,2} axes (quick: all single edits of "
     "all bases + all double edits of the 2x2 and 3x1 bases; thorough: all); (c) Hypothesis: random consistent tables "
@@ -117,6 +117,8 @@ def _enum(job):
             for c in combos:
                 t = {"0": {"X": [vals[c[0]], vals[c[1]]]}, "1": {"X": [vals[c[2]], vals[c[3]]]}}
                 ok = assert_table(2, ["X"], t, "2 faces x 1 axis")
+                # the same table with the faces listed in the other order
+                assert_table(2, ["X"], {"1": t["1"], "0": t["0"]}, "2 faces x 1 axis (faces listed in reverse order)")
                 n += 1
                 acc += ok
                 nt += any(c)
@@ -187,7 +189,10 @@ def strategy_impl(draw, tier):
         for _ in range(nedits):
             edits.append([list(draw(st.sampled_from(slots))), draw(st.sampled_from(vals))])
     special = draw(st.sampled_from(["none"] * 8 + ["two-facedims", "absent-facedim"]))
-    return {"nfaces": nfaces, "axes": axes, "table": table, "edits": edits, "special": special}
+    # the order in which the faces (and the axes of a face) are listed is part of the input
+    order = draw(st.permutations(sorted(table)))
+    return {"nfaces": nfaces, "axes": axes, "table": table, "edits": edits, "special": special, "face_order": list(order),
+            "reverse_axes": draw(st.booleans())}
 
 
 def strategy(tier):
@@ -200,6 +205,8 @@ def check(case, ctx):
         (f, a, s), v = e
         table[f][a][s] = v
     nfaces, axes = case["nfaces"], case["axes"]
+    if case.get("face_order"):
+        table = {f: ({a: table[f][a] for a in reversed(list(table[f]))} if case.get("reverse_axes") else table[f]) for f in case["face_order"] if f in table}
     special = case.get("special", "none")
     if special == "none":
         want = assert_table(nfaces, axes, table, "random table")
